@@ -328,7 +328,9 @@ class Fn:
         if ta[0] == 'ptr':
             if op not in '+-':
                 raise Unsupported('pointer %s int' % op)
-            sc = T.cells(ta[1])
+            # `void * + n` (GNU C: sizeof(void) == 1, what gcc and clang compile): one cell per byte, i.e. the
+            # pointer is taken to point to char data (lbuf.c write_fully: buf + nw)
+            sc = 1 if ta[1] == ('void',) else T.cells(ta[1])
             return '(EPtrAdd %s %s %s)' % (Z(sc if op == '+' else -sc), ea, eb)
         if tb[0] == 'ptr':
             if op != '+':
